@@ -44,7 +44,7 @@ type Finding struct {
 }
 
 // LoadFindings reads the committed known-findings file (never written at run time).
-func LoadFindings(prop string) []*Finding {
+func LoadFindings(prop string, also ...string) []*Finding {
 	data, err := os.ReadFile(filepath.Join(Root(), "known_findings.txt"))
 	if err != nil {
 		return nil
@@ -60,7 +60,13 @@ func LoadFindings(prop string) []*Finding {
 			fmt.Fprintf(os.Stderr, "known_findings.txt: bad line %q: %v\n", l, err)
 			os.Exit(2)
 		}
-		if f.Property != prop || f.Status != "known" {
+		match := f.Property == prop
+		for _, a := range also {
+			if f.Property == a {
+				match = true
+			}
+		}
+		if !match || f.Status != "known" {
 			continue
 		}
 		f.re = regexp.MustCompile("^(?:" + f.Sig + ")$")
@@ -91,13 +97,13 @@ type Run struct {
 }
 
 // NewRun starts a check run.
-func NewRun(prop, tier, level string) *Run {
+func NewRun(prop, tier, level string, alsoFindingsOf ...string) *Run {
 	if tier != "quick" && tier != "thorough" {
 		tier = "quick"
 	}
 	return &Run{Prop: prop, Tier: tier, Level: level, start: time.Now(),
 		viol: map[string]*Violation{}, violN: map[string]int{}, Coverage: map[string]any{},
-		findings: LoadFindings(prop)}
+		findings: LoadFindings(prop, alsoFindingsOf...)}
 }
 
 // Report records a violation (deduplicated by signature; the first, i.e. the
